@@ -7,6 +7,7 @@ Partial by nature: kernel path resolution with symlinks, and the fact that grcov
 else, are checked by the sandbox snapshots of the correspondence run, not proved.
 -/
 import GrcovModel.Confine
+import GrcovModel.Props.C19Dest
 namespace Grcov.Props.C19
 open Grcov.Confine
 
